@@ -9,7 +9,7 @@ git -C /repo worktree add --detach $W HEAD >/dev/null 2>&1 || { echo "worktree f
 cd $W; export CARGO_NET_OFFLINE=true
 if ! git apply --check $SRC/patch.diff 2>/dev/null; then echo "PATCH DOES NOT APPLY"; git -C /repo worktree remove --force $W; exit 2; fi
 git apply $SRC/patch.diff
-suite=$(cargo test --workspace --no-fail-fast --offline 2>&1 | grep -E "^test result" | awk '{p+=$4; f+=$6} END {print "passed",p,"failed",f}')
+suite=$(cargo test --workspace --no-fail-fast --offline ${SUITE_FLAGS:-} 2>&1 | grep -E "^test result" | awk '{p+=$4; f+=$6} END {print "passed",p,"failed",f}')
 cp $SRC/examples/seeded_demo.rs examples/seeded_demo_x.rs
 with=$(cargo run --offline --example seeded_demo_x 2>&1 | grep -E "panicked|error(\[|:)|Finished|Running" | head -4 | tr '\n' ' ')
 git apply -R $SRC/patch.diff
